@@ -34,7 +34,7 @@ let show_entry ((rq, r) : Sparse.request * Sparse.result) : string =
      D<k>                                          run goroutine k until it has nothing left to do (or is blocked)
      U<k>                                          run goroutine k until it sits at the yield point before done.Set (or is blocked/finished)
      DA                                            drain all goroutines round-robin until none can move
-     X:<state 0|1>:<K|A|R<n>>:<preload 0|1>        restart
+     X:<state 0|1>:<K|A|R<n>>:<preload 0|1|I<bits>>  restart (I<bits>: pre-load from a separate init state file with these bits)
      Y:<K|A|R<n>>                                  start-up that fails after replacing the state and resizing the cache *)
 let register () =
   Drv.register "c10.run" (fun args -> match args with
@@ -103,7 +103,13 @@ let register () =
                      let cm = if cache = "K" then Sparse.CKeep else if cache = "A" then Sparse.CAbsent
                        else Sparse.CResize (nat_of_int (num cache)) in
                      incr restarts; Hashtbl.reset tmap;
-                     (match step !s (Sparse.LRestart { Sparse.m_state = (st = "1"); m_cache = cm; m_preload = (pre = "1") }) with
+                     let lbl =
+                       if Stdlib.String.length pre > 0 && pre.[0] = 'I' then
+                         (* a separate init state file with the given bits *)
+                         let bits = Stdlib.List.init (Stdlib.String.length pre - 1) (fun i -> pre.[i + 1] = '1') in
+                         Sparse.LRestartInit ({ Sparse.m_state = (st = "1"); m_cache = cm; m_preload = true }, bits)
+                       else Sparse.LRestart { Sparse.m_state = (st = "1"); m_cache = cm; m_preload = (pre = "1") } in
+                     (match step !s lbl with
                       | Some s' -> s := s' | None -> ())
                  | _ -> failwith "restart")
             | _ -> failwith ("token " ^ tok)) (split_on ',' script);
